@@ -22,6 +22,7 @@ ARRS = {T + "IntegerArray": "int32", T + "LongArray": "int64", T + "ShortArray":
         T + "FloatArray": "float", T + "DoubleArray": "float", T + "BooleanArray": "bool", T + "StringArray": "str"}
 LISTS = {T + "IntegerList": ("Integer", "int32"), T + "FloatList": ("Float", "float"), T + "StringList": ("String", "str")}
 FS_ARRAY, FS_LIST, TOP, ANNOTATION = T + "FSArray", T + "FSList", T + "TOP", "uima.tcas.Annotation"
+ANNOTATION_BASE = T + "AnnotationBase"
 RESERVED = {"self": "self_", "type": "type_"}
 
 
@@ -156,6 +157,8 @@ def build_cas(cassis, ts, cspec, lenient=False):
     views = []
     for i, v in enumerate(cspec["views"]):
         view = cas if i == 0 else cas.create_view(v["name"])
+        if v.get("text0") is not None:  # the text of the view is replaced: the offset table has to follow
+            view.sofa_string = "".join(chr(c) for c in v["text0"])
         if v.get("text") is not None:
             view.sofa_string = "".join(chr(c) for c in v["text"])
         if v.get("mime") is not None:
@@ -414,7 +417,7 @@ def gen_tspec(r, n_types=6, max_feats=5, awkward=True):
     names = ["a.b.T0", "a.c.T1", "x.b.T2", "NoNs", "q.cas.T4", "q.type.T5", "c.type0.T6", "r.type.T7"][:n_types]
     spec = []
     for n in names:
-        sup = r.choice([ANNOTATION, ANNOTATION, TOP] + [t["name"] for t in spec])
+        sup = r.choice([ANNOTATION, ANNOTATION, TOP, ANNOTATION_BASE] + [t["name"] for t in spec])
         spec.append({"name": n, "super": sup, "feats": []})
     spec.append({"name": "a.MyStr", "super": T + "String", "feats": []})
 
@@ -487,6 +490,9 @@ def gen_cspec(r, cassis, tspec, n_objs=(1, 12), all_ids=True, max_views=3, nulls
     nviews = r.randint(1, max_views)
     views = [{"name": "_InitialView" if i == 0 else "view%d" % i, "text": r.choice(TEXTS),
               "mime": r.choice([None, "text/plain"])} for i in range(nviews)]
+    for v in views:
+        if r.random() < 0.25:
+            v["text0"] = r.choice(TEXTS[2:])  # an earlier text with astral characters
     objs, members = [], []
     lab = [0]
 
@@ -521,6 +527,11 @@ def gen_cspec(r, cassis, tspec, n_objs=(1, 12), all_ids=True, max_views=3, nulls
             L = len(views[vi]["text"] or [])
             b = r.randint(0, L)
             o["slots"].update({"sofa": {"sofa": views[vi]["name"]}, "begin": {"i": b}, "end": {"i": r.randint(b, L)}})
+            ann_view[l] = vi
+        elif isa(o["type"], ANNOTATION_BASE):
+            # a direct subtype of AnnotationBase: bound to the sofa of one view, no offsets of its own
+            vi = r.randrange(nviews)
+            o["slots"]["sofa"] = {"sofa": views[vi]["name"]}
             ann_view[l] = vi
         for f in schema[o["type"]]["feats"]:
             pn, _xn, rng, _el, multi = f
